@@ -943,7 +943,7 @@ def translate_module(source, basename, wanted=None, imported=None):
     chunks, skipped = mt.translate()
     modname = basename[:-3] if basename.endswith(".py") else basename
     imports = "".join("import %s\n" % m for m in mt.lean_imports)
-    notes = "; ".join("%s (%s)" % (k, v) for k, v in sorted(mt.skipped_functions.items())) or "none"
+    notes = ", ".join(sorted(mt.skipped_functions)) or "none"      # (the reasons are reported in the evidence)
     text = (HEADER % (imports, basename, ", ".join(skipped) or "none", notes) + "\n\n".join(chunks) + "\n\n" +
             dispatcher(mt, modname) + "\n\nend Dsw.Gen\n")
     return text, mt
@@ -954,7 +954,7 @@ def translate_source(source, basename, wanted=None):
     return text, mt.order
 
 
-def translate_package(repo, modules=("operation", "spiderweb")):
+def translate_package(repo, modules=("operation", "graphized", "spiderweb")):
     """translate dsw/<m>.py for each m in order; later modules may call translated functions of earlier ones.
     returns {module: (text, ModuleTranslator)}."""
     import os
@@ -972,11 +972,8 @@ if __name__ == "__main__":
     path = sys.argv[1]
     base = os.path.basename(path)
     try:
-        if base == "operation.py":
-            text, _ = translate_module(open(path).read(), base)
-        else:
-            repo = os.path.dirname(os.path.dirname(os.path.abspath(path)))
-            text = translate_package(repo, ("operation", base[:-3]))[base[:-3]][0]
+        repo = os.path.dirname(os.path.dirname(os.path.abspath(path)))
+        text = translate_package(repo)[base[:-3]][0]
     except Unsupported as ex:
         sys.stderr.write("unsupported: %s\n" % ex)
         sys.exit(3)
